@@ -3,6 +3,7 @@ package simrt
 import (
 	"runtime/debug"
 	"strings"
+	"sync/atomic"
 )
 
 // Handle is the per-instance link between a generated component and the simulator. It is
@@ -13,8 +14,10 @@ type Handle struct {
 	Alias string
 	Qual  string
 	Kind  string
-	Ord   int
-	probe int
+	// KindCalls: how often the container invoked SimKind() on the component
+	KindCalls int32
+	Ord       int
+	probe     int
 	// simulated loaders: LoaderHook runs inside LoadConfig (after the fault check); Data2, if
 	// set, is what the loader supplies once the application has switched it over (Data2Active).
 	LoaderHook  func()
@@ -167,3 +170,9 @@ func (o OrdMix) Order() int { return o.OrdH.Ord }
 type LocalPrimary struct{ LocalBase }
 
 func (c *LocalPrimary) Primary() {}
+
+// OnKind is SimKind(): the value a func-tagged point compares with its `returns` argument.
+func (h *Handle) OnKind() string {
+	atomic.AddInt32(&h.KindCalls, 1)
+	return h.Kind
+}
